@@ -709,10 +709,10 @@ def check_patches(i, op, f, ob, before, specs, svcs, boot_mapped, holders_shown,
         cands = []
         for e in before["snap"]:
             sp = entry_spec(e, specs)
-            if not sp or e.get("term"):
+            if not sp or e.get("term") or not sp.usable():
                 continue
             fams = [r for r in (sp.v4, sp.v6) if r not in (None, "M")]
-            if len(fams) != len(cs):
+            if len(fams) != len(cs) or len(set(c[0] for c in cs)) != len(cs):
                 continue
             okk = True
             for r, c in zip(fams, cs):
